@@ -53,19 +53,19 @@ theorem validate_empty (env : Env) (varOk methOk : Bool) (msg : String) (w : Wor
 
 /-- **the declarator `ptr-ops x`** after the type: `_parse_decl` ends in `_parse_field` with the
     type the pointer chain denotes and the name `x` -/
-theorem parseDecl_plain (env : Env) (F D : Nat) (pt : DType) (mods : Mods) (location : LocRef) (doxygen : Option String)
+theorem parseDecl_plain (env : Env) (F D : Nat) (pt : DType) (mods : Mods) (location : LocRef) (doxygen : Option String) (isTypedef : Bool)
     (ops : List Tok) (x tm : Tok) (d1 : DType) (w : World) (bmid bx b' : Buf)
     (blk : Block) (rest : List Block) (hstack : w.stack = blk :: rest)
     (hpt : isFnType pt = false)
     (hy : Yields env.cfg w.buf ops bmid) (ha : applyPtrOps pt (ops.map (·.type)) = some d1)
     (htx : tokenEofOk env.cfg bmid = .ok (some x, bx)) (hx : x.type = "NAME") (hxv : identVal x.value = true)
-    (httm : tokenEofOk env.cfg bx = .ok (some tm, b')) (htm : tm.type = ";" ∨ tm.type = ",")
+    (httm : tokenEofOk env.cfg bx = .ok (some tm, b')) (htm : tm.type = ";" ∨ tm.type = "," ∨ tm.type = "=")
     (hF : ops.length + 1 ≤ F) :
     ∃ (w' : World) (t' : Tok), SameButLog w w' ∧ tokenEofOk env.cfg w'.buf = .ok (some t', b') ∧
       t'.type = tm.type ∧ t'.value = tm.value ∧
-      interp env (parseDecl F (core F (D + 1)) pt mods location doxygen .none false false) w =
+      interp env (parseDecl F (core F (D + 1)) pt mods location doxygen .none isTypedef false) w =
         interp env (do
-          parseField F mods d1 (some (.mk [.name x.value none] none false)) none doxygen location false
+          parseField F mods d1 (some (.mk [.name x.value none] none false)) none doxygen location isTypedef
           pure false) w' := by
   simp only [identVal, Bool.and_eq_true, Bool.not_eq_true', bne_iff_ne, ne_eq] at hxv
   obtain ⟨⟨⟨hpv, hnc⟩, hms⟩, hauto⟩ := hxv
@@ -87,10 +87,10 @@ theorem parseDecl_plain (env : Env) (F D : Nat) (pt : DType) (mods : Mods) (loca
   have hc4v : c4.value = x.value := by rw [hv4, hv3, hv2, hv1]
   obtain ⟨w5, t5, hpq, hs5, ht5, hty5, hv5⟩ := plain_pqname env F (core F D) true false false c4 [] w4 bx b' tm
     (by rw [hty4, hty3, hty2, hty1, hx]) (by rw [hc4v]; exact hpv) (by rw [hc4v]; exact hnc) (by simp)
-    (by rw [hb4]; exact .nil _) httm (by rcases htm with h | h <;> (rw [h]; decide)) (by rcases htm with h | h <;> (rw [h]; decide))
+    (by rw [hb4]; exact .nil _) httm (by rcases htm with h | h | h <;> (rw [h]; decide)) (by rcases htm with h | h | h <;> (rw [h]; decide))
     (by simp; omega)
   obtain ⟨w6, t6, hi6, hs6, ht6, hty6, hv6⟩ := step_tokenIf_miss env ["("] (logged env w5 "parse_pqname") t5 b'
-    (by rw [logged_buf']; exact ht5) (by rw [hty5]; rcases htm with h | h <;> (rw [h]; decide))
+    (by rw [logged_buf']; exact ht5) (by rw [hty5]; rcases htm with h | h | h <;> (rw [h]; decide))
   refine ⟨w6, t6, (((((hs1.trans hs2).trans hs3).trans hs4).trans hs5).butLog.trans (logged_butLog env w5 _)).trans hs6.butLog,
     ht6, by rw [hty6, hty5], by rw [hv6, hv5], ?_⟩
   unfold parseDecl parseCvPtr
@@ -127,13 +127,13 @@ theorem declarator_variable (env : Env) (F D : Nat) (pt : DType) (location : Loc
       ev.stateId = blk.id ∧ ev.parentId = rest.head?.map (·.id) ∧ (∀ d, doxygen = some d → dox = some d) ∧
       w7.delivered = w.delivered + 1 ∧ w7.anon = w.anon ∧ w7.muted = false ∧ w7.nextId = w.nextId ∧
       w7.mainTok = w.mainTok := by
-  obtain ⟨w1, t1, hs1, ht1, hty1, hv1, hi1⟩ := parseDecl_plain env F D pt {} location doxygen ops x tm d1 w bmid bx b'
-    blk rest hstack hpt hy ha htx hx hxv httm htm hF
-  have hnm : fieldName (blk.hdr.kind = .cls) (.mk [.name x.value none] none false) = some none := by
+  obtain ⟨w1, t1, hs1, ht1, hty1, hv1, hi1⟩ := parseDecl_plain env F D pt {} location doxygen false ops x tm d1 w bmid bx b'
+    blk rest hstack hpt hy ha htx hx hxv httm (htm.elim .inl (fun h => .inr (.inl h))) hF
+  have hnm : fieldName (false || decide (blk.hdr.kind = .cls)) (.mk [.name x.value none] none false) = some none := by
     have hd : decide (blk.hdr.kind = .cls) = false := by simp [hk]
     rw [hd]; rfl
   obtain ⟨w5, t5, b5, dox, hs5, ht5, hsig5, hty5, hv5, hdox, hi5⟩ := parseField_plain env F {} d1 (.mk [.name x.value none] none false)
-    none doxygen location w1 t1 b' blk rest (by rw [hs1.stack]; exact hstack) none hnm ht1
+    none doxygen location false w1 t1 b' blk rest (by rw [hs1.stack]; exact hstack) none hnm ht1
     (by rw [hty1]; rcases htm with h | h <;> (rw [h]; decide))
   -- the callback
   have hst5 : w5.stack = { blk with loc := location } :: rest := hs5.stack
@@ -187,13 +187,13 @@ theorem declarator_field (env : Env) (F D : Nat) (pt : DType) (location : LocRef
       ev.stateId = blk.id ∧ ev.parentId = rest.head?.map (·.id) ∧ (∀ d, doxygen = some d → dox = some d) ∧
       w7.delivered = w.delivered + 1 ∧ w7.anon = w.anon ∧ w7.muted = false ∧ w7.nextId = w.nextId ∧
       w7.mainTok = w.mainTok := by
-  obtain ⟨w1, t1, hs1, ht1, hty1, hv1, hi1⟩ := parseDecl_plain env F D pt {} location doxygen ops x tm d1 w bmid bx b'
-    blk rest hstack hpt hy ha htx hx hxv httm htm hF
-  have hnm : fieldName (blk.hdr.kind = .cls) (.mk [.name x.value none] none false) = some (some x.value) := by
+  obtain ⟨w1, t1, hs1, ht1, hty1, hv1, hi1⟩ := parseDecl_plain env F D pt {} location doxygen false ops x tm d1 w bmid bx b'
+    blk rest hstack hpt hy ha htx hx hxv httm (htm.elim .inl (fun h => .inr (.inl h))) hF
+  have hnm : fieldName (false || decide (blk.hdr.kind = .cls)) (.mk [.name x.value none] none false) = some (some x.value) := by
     have hd : decide (blk.hdr.kind = .cls) = true := by simp [hk]
     rw [hd]; rfl
   obtain ⟨w5, t5, b5, dox, hs5, ht5, hsig5, hty5, hv5, hdox, hi5⟩ := parseField_plain env F {} d1 (.mk [.name x.value none] none false)
-    none doxygen location w1 t1 b' blk rest (by rw [hs1.stack]; exact hstack) (some x.value) hnm ht1
+    none doxygen location false w1 t1 b' blk rest (by rw [hs1.stack]; exact hstack) (some x.value) hnm ht1
     (by rw [hty1]; rcases htm with h | h <;> (rw [h]; decide))
   -- the callback
   have hst5 : w5.stack = { blk with loc := location } :: rest := hs5.stack
